@@ -15,6 +15,8 @@
 //!   phuff/x2|x4|x8                          ParallelHuffmanEncoder<P>/ParallelHuffmanDecoder<P>
 //!   simdhuff/<tier>                         SimdHuffmanEncoder (decoded with HuffmanDecoder on its tree)
 //!   adaptive_par                            AdaptiveParallelEncoder (decoder chosen via select_optimal_encoding)
+//!   gap_* families (see `gap_cases`): bitops/hw|sw|mixed (bit-field coders of bit_ops.rs), dict/serde (Dictionary save/load),
+//!   fse/reset, fse/table, fse/fastdiv, rans/x1|x4 gap_table (slot invariant), simdhuff/new
 use crate::ctx::{catch, Case, Ctx, Fail, Res};
 use crate::gen;
 use std::fmt::Display;
@@ -583,6 +585,7 @@ pub fn run(ctx: &mut Ctx) {
     }
     drive(ctx, "adaptive_par", &selfp, &|c, i| t_adaptive_par(c, i));
     huge_special(ctx);
+    gap_cases(ctx);
 }
 
 /// `huge_*` families that need a target-specific shape or configuration to stay linear-time.
@@ -670,4 +673,275 @@ fn fse_parallel(ctx: &mut Ctx) {
             let fr = count(&i.data); for ch in i.data.chunks(cfg.block_size) { fse_tags(c, &cfg, &fr, ch); }
             fse_roundtrip(c, &cfg, &i.data, &i, true) });
     } }
+}
+
+// ---------------------------------------------------------------------------------------------
+// gap families (functions of the anchor files that no earlier case reached): bit-level field coders of bit_ops.rs,
+// Dictionary save/load, FSE encoder/decoder reset + table helpers, rANS table invariant, SimdHuffmanEncoder::new
+// ---------------------------------------------------------------------------------------------
+use zipora::entropy::bit_ops::{BitOps, BitOpsConfig, CompressionBmi2Dispatcher, CompressionOperation, EntropyBitOps};
+use zipora::entropy::dictionary::{Dictionary, DictionaryEntry};
+use zipora::entropy::fse::{FastDivision, FseTable};
+
+fn pdep_ref(src: u64, mask: u64) -> u64 { let (mut r, mut k) = (0u64, 0u32); for b in 0..64 { if (mask >> b) & 1 == 1 { if (src >> k) & 1 == 1 { r |= 1u64 << b; } k += 1; } } r }
+fn pext_ref(src: u64, mask: u64) -> u64 { let (mut r, mut k) = (0u64, 0u32); for b in 0..64 { if (mask >> b) & 1 == 1 { if (src >> b) & 1 == 1 { r |= 1u64 << k; } k += 1; } } r }
+fn low_mask(n: u32) -> u64 { if n >= 64 { u64::MAX } else { (1u64 << n) - 1 } }
+/// 64-bit words with the shapes that matter for masks: sparse, dense, runs, low/high fields, 0 and !0
+fn word(c: &mut Case) -> u64 {
+    match c.rng.below(8) { 0 => 0, 1 => u64::MAX, 2 => c.rng.next() & c.rng.next() & c.rng.next(), 3 => c.rng.next() | c.rng.next() | c.rng.next(),
+        4 => { let w = c.rng.range(1, 64) as u32; let s = c.rng.below((65 - w) as u64) as u32; low_mask(w) << s }, 5 => 1u64 << c.rng.below(64), 6 => c.rng.next() as u32 as u64, _ => c.rng.next() }
+}
+fn bitops_cfg(c: &mut Case, which: &str) -> BitOpsConfig {
+    match which {
+        "hw" => BitOpsConfig::default(),
+        "sw" => BitOpsConfig { enable_bmi2: false, enable_avx2: false, enable_popcnt: false, software_fallback: true, enable_compression_optimizations: false, enable_entropy_acceleration: false, enable_variable_length_decoding: false },
+        _ => BitOpsConfig { enable_bmi2: c.rng.bool(), enable_avx2: c.rng.bool(), enable_popcnt: c.rng.bool(), software_fallback: true, enable_compression_optimizations: c.rng.bool(), enable_entropy_acceleration: c.rng.bool(), enable_variable_length_decoding: c.rng.bool() },
+    }
+}
+/// Field coders: encode_variable_length -> decode_variable_length / dispatch_entropy_extract, pack_bits -> extract_bits,
+/// deposit -> extract, interleave -> de-interleave, reverse -> reverse.  Identity oracle on the coded value.
+fn t_bitops_roundtrip(c: &mut Case, which: &str) -> Res {
+    let cfg = bitops_cfg(c, which); c.input_str("cfg", &format!("{cfg:?}"));
+    let seed = c.rng.next(); c.input("stream_seed", &seed.to_le_bytes()); let mut r = crate::rng::Rng::new(seed); std::mem::swap(&mut c.rng, &mut r);
+    let b = BitOps::with_config(cfg.clone()); let eb = EntropyBitOps::with_config(cfg.clone()); let disp = CompressionBmi2Dispatcher::with_config(cfg.clone());
+    c.set_nontrivial(true);
+    for _ in 0..64 {
+        // variable-length field: value -> field -> placed at start_bit among noise -> decoded
+        let length = c.rng.range(1, 32) as u32; let value = c.rng.next() as u32; let want = (value as u64 & low_mask(length)) as u32;
+        let start = c.rng.below((65 - length) as u64) as u32;
+        if let Some(f) = enc(c, "encode_variable_length_bmi2", || b.encode_variable_length_bmi2(value, length))? {
+            crate::ensure!(f == want as u64, "bitfield_encode_mismatch", "encode_variable_length_bmi2({value:#x},{length})={f:#x} want {want:#x}");
+            let noise = c.rng.next() & !(low_mask(length) << start); let stream = (f << start) | noise;
+            let got = must("decode_variable_length_bmi2", "bitfield_decode_err", || b.decode_variable_length_bmi2(stream, start, length))?; c.ev(1);
+            crate::ensure!(got == want, "bitfield_roundtrip_mismatch", "decode_variable_length_bmi2({stream:#x},{start},{length})={got:#x} want {want:#x}");
+            let got = crate::ctx::nopanic("dispatch_entropy_extract", || disp.dispatch_entropy_extract(stream, start, length))?; c.ev(1);
+            crate::ensure!(got == want, "bitfield_roundtrip_mismatch", "dispatch_entropy_extract({stream:#x},{start},{length})={got:#x} want {want:#x}");
+        }
+        // pack_bits (MSB-first offset in a 64-bit word) read back directly, and through extract_bits (16-bit window, offset >= 1)
+        let width = c.rng.range(1, 32) as u32; let offset = c.rng.below((65 - width) as u64) as u32; let v = c.rng.next() as u32; let wantv = (v as u64 & low_mask(width)) as u32;
+        let mut stream = 0u64;
+        if enc(c, "pack_bits", || eb.pack_bits(&mut stream, v, offset, width))?.is_some() {
+            let back = ((stream >> (64 - offset - width)) & low_mask(width)) as u32; c.ev(1);
+            crate::ensure!(back == wantv && stream & !(low_mask(width) << (64 - offset - width)) == 0, "packbits_roundtrip_mismatch", "pack_bits(0,{v:#x},{offset},{width}) -> {stream:#x}, field reads {back:#x} want {wantv:#x}");
+        }
+        let w16 = c.rng.range(1, 15) as u32; let o16 = c.rng.range(1, (16 - w16) as u64) as u32; let want16 = (v as u64 & low_mask(w16)) as u32; let mut s16 = 0u64;
+        if enc(c, "pack_bits", || eb.pack_bits(&mut s16, v, 48 + o16, w16))?.is_some() {
+            let got = crate::ctx::nopanic("extract_bits", || eb.extract_bits(s16, o16, w16))?; c.ev(1);
+            crate::ensure!(got == want16, "packbits_roundtrip_mismatch", "pack_bits(0,{v:#x},48+{o16},{w16}) -> {s16:#x}; extract_bits(..,{o16},{w16})={got:#x} want {want16:#x}");
+        }
+        // deposit -> extract (64 and 32 bit), benchmark wrappers, model of both directions
+        let (x, m) = (word(c), word(c)); let k = m.count_ones();
+        let d = crate::ctx::nopanic("parallel_deposit64", || b.parallel_deposit64(x, m))?; let e = crate::ctx::nopanic("parallel_extract64", || b.parallel_extract64(d, m))?; c.ev(3);
+        crate::ensure!(e == x & low_mask(k), "pdep_pext_roundtrip_mismatch", "pext64(pdep64({x:#x},{m:#x})={d:#x},m)={e:#x} want {:#x}", x & low_mask(k));
+        crate::ensure!(d == pdep_ref(x, m), "bitops_model_mismatch", "parallel_deposit64({x:#x},{m:#x})={d:#x} want {:#x}", pdep_ref(x, m));
+        let e2 = b.parallel_extract64(x, m); crate::ensure!(e2 == pext_ref(x, m), "bitops_model_mismatch", "parallel_extract64({x:#x},{m:#x})={e2:#x} want {:#x}", pext_ref(x, m));
+        crate::ensure!(b.pdep_u64(x, m) == d && b.pext_u64(x, m) == e2, "bitops_wrapper_mismatch", "pdep_u64/pext_u64 differ from parallel_deposit64/parallel_extract64 for x={x:#x} m={m:#x}");
+        let z = b.zero_high_bits64(x, b.popcount64(m)); crate::ensure!(z == x & low_mask(k), "bitops_model_mismatch", "zero_high_bits64({x:#x}, popcount64({m:#x}))={z:#x} want {:#x}", x & low_mask(k));
+        let (x3, m3) = (x as u32, m as u32); let k3 = m3.count_ones();
+        let d3 = b.parallel_deposit32(x3, m3); let e3 = b.parallel_extract32(d3, m3); c.ev(3);
+        crate::ensure!(e3 as u64 == x3 as u64 & low_mask(k3), "pdep_pext_roundtrip_mismatch", "pext32(pdep32({x3:#x},{m3:#x})={d3:#x},m)={e3:#x}");
+        crate::ensure!(d3 as u64 == pdep_ref(x3 as u64, m3 as u64) && b.parallel_extract32(x3, m3) as u64 == pext_ref(x3 as u64, m3 as u64), "bitops_model_mismatch", "parallel_deposit32/extract32({x3:#x},{m3:#x})");
+        let z3 = b.zero_high_bits32(x3, b.popcount32(m3)); crate::ensure!(z3 as u64 == x3 as u64 & low_mask(k3), "bitops_model_mismatch", "zero_high_bits32({x3:#x}, popcount32({m3:#x}))={z3:#x}");
+        // select = position of the k-th deposited bit; trailing zeros
+        let kk = c.rng.below(66) as u32;
+        let s = b.select_bit64(m, kk); let wants = if kk < k { Some(pdep_ref(1u64 << kk, m).trailing_zeros()) } else { None }; c.ev(2);
+        crate::ensure!(s == wants, "bitops_model_mismatch", "select_bit64({m:#x},{kk})={s:?} want {wants:?}");
+        let s = b.select_bit32(m3, kk); let wants = if kk < k3 { Some(pdep_ref(1u64 << kk, m3 as u64).trailing_zeros()) } else { None };
+        crate::ensure!(s == wants, "bitops_model_mismatch", "select_bit32({m3:#x},{kk})={s:?} want {wants:?}");
+        crate::ensure!(b.trailing_zeros64(m) == m.trailing_zeros() && b.trailing_zeros32(m3) == m3.trailing_zeros(), "bitops_model_mismatch", "trailing_zeros64/32({m:#x})");
+        // interleave -> de-interleave; reversal is an involution and equals the bit mirror
+        let (lo, hi) = (c.rng.next() as u32, word(c) as u32); let il = b.bit_interleaving_bmi2(lo, hi); c.ev(2);
+        crate::ensure!(pext_ref(il, 0x5555_5555_5555_5555) == lo as u64 && pext_ref(il, 0xAAAA_AAAA_AAAA_AAAA) == hi as u64, "interleave_roundtrip_mismatch", "bit_interleaving_bmi2({lo:#x},{hi:#x})={il:#x}");
+        let r64 = b.reverse_bits64(x); crate::ensure!(r64 == x.reverse_bits() && b.reverse_bits64(r64) == x && b.bit_reverse_bmi2(x) == r64, "bitreverse_mismatch", "reverse_bits64/bit_reverse_bmi2({x:#x})={r64:#x}");
+        let r32 = b.reverse_bits32(x3); let r32e = eb.reverse_bits32(x3); c.ev(2);
+        crate::ensure!(r32 == x3.reverse_bits() && b.reverse_bits32(r32) == x3, "bitreverse_mismatch", "BitOps::reverse_bits32({x3:#x})={r32:#x}");
+        crate::ensure!(r32e == x3.reverse_bits() && eb.reverse_bits32(r32e) == x3, "bitreverse_mismatch", "EntropyBitOps::reverse_bits32({x3:#x})={r32e:#x} want {:#x}", x3.reverse_bits());
+        // multi-field extraction == the sequence of single extractions
+        let nm = c.rng.range(1, 6) as usize; let masks: Vec<u64> = (0..nm).map(|_| word(c)).collect();
+        let single: Vec<u64> = masks.iter().map(|&mk| pext_ref(x, mk)).collect(); let single32: Vec<u32> = single.iter().map(|&v| v as u32).collect(); c.ev(4);
+        let g = crate::ctx::nopanic("parallel_bit_extract_bmi2", || b.parallel_bit_extract_bmi2(x, &masks))?; crate::ensure!(g == single, "batch_ne_single", "parallel_bit_extract_bmi2({x:#x},{masks:x?})={g:x?} want {single:x?}");
+        let g = crate::ctx::nopanic("extract_huffman_symbols_bmi2", || b.extract_huffman_symbols_bmi2(x, &masks))?; crate::ensure!(g == single32, "batch_ne_single", "extract_huffman_symbols_bmi2({x:#x},{masks:x?})={g:x?} want {single32:x?}");
+        let g = crate::ctx::nopanic("dispatch_variable_length_decode", || disp.dispatch_variable_length_decode(x, &masks))?; crate::ensure!(g == single32, "batch_ne_single", "dispatch_variable_length_decode({x:#x},{masks:x?})={g:x?} want {single32:x?}");
+        let off = c.rng.next() as u32;
+        crate::ensure!(b.decode_rans_symbols_bmi2(x, m) == pext_ref(x, m) as u32 && b.fse_decode_bmi2(x, m, off) == (pext_ref(x, m) as u32).wrapping_add(off), "bitops_model_mismatch", "decode_rans_symbols_bmi2/fse_decode_bmi2({x:#x},{m:#x},{off})");
+    }
+    // word-array operations == per-word model
+    let n = *c.rng.pick(&[0usize, 1, 3, 4, 5, 8, 17, 64]); let data: Vec<u64> = (0..n).map(|_| word(c)).collect(); c.ev(5);
+    let pc: Vec<u32> = data.iter().map(|w| w.count_ones()).collect();
+    let g = crate::ctx::nopanic("vectorized_popcount", || b.vectorized_popcount(&data))?; crate::ensure!(g == pc, "batch_ne_single", "vectorized_popcount({data:x?})={g:?} want {pc:?}");
+    for (op, name) in [(CompressionOperation::PopCount, "PopCount"), (CompressionOperation::LeadingZeros, "LeadingZeros"), (CompressionOperation::TrailingZeros, "TrailingZeros"), (CompressionOperation::BitReverse, "BitReverse")] {
+        let want: Vec<u64> = data.iter().map(|&w| match name { "PopCount" => w.count_ones() as u64, "LeadingZeros" => w.leading_zeros() as u64, "TrailingZeros" => w.trailing_zeros() as u64, _ => w.reverse_bits() }).collect();
+        let g = crate::ctx::nopanic("dispatch_bit_stream_process", || disp.dispatch_bit_stream_process(&data, op))?; crate::ensure!(g == want, "batch_ne_single", "dispatch_bit_stream_process({data:x?},{name})={g:x?} want {want:x?}");
+    }
+    std::mem::swap(&mut c.rng, &mut r);
+    Ok(())
+}
+/// pack_bits at the end of the word: offset <= 64 and width <= 32 pass the parameter check; a field that does not fit must be
+/// refused (Err) or clipped without touching other bits, never panic (the API has an error channel).
+fn t_packbits_edge(c: &mut Case, which: &str) -> Res {
+    let cfg = bitops_cfg(c, which); let eb = EntropyBitOps::with_config(cfg);
+    let width = c.rng.range(0, 32) as u32; let fits = c.rng.bool(); let offset = if fits { 64 - width - c.rng.below(3).min((64 - width) as u64) as u32 } else { c.rng.range(64 - width as u64, 64) as u32 };
+    let v = c.rng.next() as u32; let before = if c.rng.bool() { 0 } else { c.rng.next() };
+    c.input_str("args", &format!("stream={before:#x} value={v:#x} offset={offset} width={width}")); c.set_nontrivial(true);
+    if offset + width > 64 { c.tag("packbits_field_past_word_end"); }
+    let mut stream = before; c.ev(1);
+    match catch(|| eb.pack_bits(&mut stream, v, offset, width)) {
+        Err(p) => Err(bad("packbits_panic", format!("pack_bits(offset={offset}, width={width}) panicked at {}: {}", p.loc, p.msg))),
+        Ok(Err(_)) => { c.note("refused:pack_bits", 1); crate::ensure!(stream == before, "packbits_err_modified_stream", "stream {before:#x} -> {stream:#x} although Err"); Ok(()) }
+        Ok(Ok(())) => { if offset + width <= 64 && width > 0 { let sh = 64 - offset - width; let want = before | ((v as u64 & low_mask(width)) << sh); crate::ensure!(stream == want, "packbits_roundtrip_mismatch", "pack_bits({before:#x},{v:#x},{offset},{width}) -> {stream:#x} want {want:#x}"); } else { c.note("packbits_out_of_word_accepted", 1); } Ok(()) }
+    }
+}
+
+fn dict_records(ser: &[u8]) -> Option<Vec<(Vec<u8>, DictionaryEntry)>> {
+    let rd32 = |o: usize| -> Option<u32> { Some(u32::from_le_bytes(ser.get(o..o + 4)?.try_into().ok()?)) };
+    let n = rd32(0)? as usize; let mut o = 4; let mut out = Vec::new();
+    for _ in 0..n { let l = u16::from_le_bytes(ser.get(o..o + 2)?.try_into().ok()?) as usize; o += 2; let s = ser.get(o..o + l)?.to_vec(); o += l; out.push((s, DictionaryEntry::new(rd32(o)?, rd32(o + 4)?))); o += 8; }
+    if o == ser.len() { Some(out) } else { None }
+}
+/// Dictionary save/load: serialize -> deserialize preserves every entry, and a compressor built on the loaded dictionary decodes
+/// what a compressor built on the original one produced (and vice versa).
+fn t_dict_serde(c: &mut Case, i: &Inp) -> Res {
+    let handmade = c.rng.chance(1, 3); c.input_str("dictionary", if handmade { "new+insert" } else { "builder" });
+    let mut model: std::collections::BTreeMap<Vec<u8>, DictionaryEntry> = Default::default();
+    let d = if handmade {
+        let mut d = Dictionary::new(); crate::ensure!(d.is_empty() && d.len() == 0, "dict_model_mismatch", "new dictionary: len={} is_empty={}", d.len(), d.is_empty());
+        for _ in 0..c.rng.below(40) { let l = *c.rng.pick(&[0usize, 1, 2, 3, 4, 8, 255, 256, 300]); let s = if !model.is_empty() && c.rng.chance(1, 5) { model.keys().next().unwrap().clone() } else { let k = c.rng.below(gen::BYTE_KINDS as u64) as u32; gen::bytes_kind(&mut c.rng, k, l) };
+            let e = DictionaryEntry::new(c.rng.next() as u32, c.rng.next() as u32); d.insert(s.clone(), e.clone()); model.insert(s, e); }
+        d
+    } else {
+        let tr = &i.train[..i.train.len().min(384)];
+        let (be, bmn, bmx, bw) = (*c.rng.pick(&[1usize, 16, 4096]), *c.rng.pick(&[1usize, 3, 8]), *c.rng.pick(&[1usize, 3, 8, 258, 1000]), *c.rng.pick(&[1usize, 64, 32768]));
+        c.input_str("builder", &format!("max_entries={be} min_match={bmn} max_match={bmx} window={bw}"));
+        let Some(d) = enc(c, "DictionaryBuilder::build", || Ok::<_, String>(DictionaryBuilder::new().max_entries(be).min_match_length(bmn).max_match_length(bmx).window_size(bw).build(tr)))? else { return Ok(()) };
+        d
+    };
+    let ser = crate::ctx::nopanic("Dictionary::serialize", || d.serialize())?;
+    let Some(recs) = dict_records(&ser) else { return crate::ctx::fail("dict_serialize_format", format!("serialize() output of {} bytes does not parse as the documented record list", ser.len())) };
+    c.note(if recs.is_empty() { "dict_entries:0" } else { "dict_entries:>0" }, 1); c.set_nontrivial(!recs.is_empty());
+    crate::ensure!(recs.len() == d.len() && d.is_empty() == recs.is_empty(), "dict_model_mismatch", "serialize() holds {} records, len()={} is_empty()={}", recs.len(), d.len(), d.is_empty());
+    if handmade { crate::ensure!(d.len() == model.len(), "dict_model_mismatch", "len()={} after inserting {} distinct sequences", d.len(), model.len());
+        for (s, e) in &model { c.ev(1); crate::ensure!(d.get(s) == Some(e), "dict_lost_entry", "get({}) = {:?} want {:?}", gen::abbrev(s), d.get(s), e); }
+        let absent = c.rng.bytes(5); if !model.contains_key(&absent) { crate::ensure!(d.get(&absent).is_none(), "dict_model_mismatch", "get(absent) is Some"); } }
+    let d2 = must("Dictionary::deserialize(serialize())", "deserialize_err", || Dictionary::deserialize(&ser))?;
+    crate::ensure!(d2.len() == d.len(), "dict_serde_mismatch", "len {} -> {} through serialize/deserialize", d.len(), d2.len());
+    for (s, e) in &recs { c.ev(2); crate::ensure!(d.get(s) == Some(e), "dict_serde_mismatch", "serialized record {} {:?} but get() = {:?}", gen::abbrev(s), e, d.get(s));
+        crate::ensure!(d2.get(s) == Some(e), "dict_serde_mismatch", "entry {} {:?} became {:?} through serialize/deserialize", gen::abbrev(s), e, d2.get(s)); }
+    let (mn, mx) = (*c.rng.pick(&[1usize, 3, 4, 10]), *c.rng.pick(&[3usize, 10, 16, 258, 1000])); c.input_str("cfg", &format!("min_match={mn} max_match={mx}"));
+    let a = DictionaryCompressor::new(d).min_match_length(mn).max_match_length(mx); let b = DictionaryCompressor::new(d2).min_match_length(mn).max_match_length(mx);
+    crate::ensure!(a.dictionary().len() == recs.len(), "dict_model_mismatch", "compressor.dictionary().len()={} want {}", a.dictionary().len(), recs.len());
+    let swap = c.rng.bool(); let (e, dd) = if swap { (&b, &a) } else { (&a, &b) }; c.input_str("direction", if swap { "loaded->original" } else { "original->loaded" });
+    let Some(z) = enc(c, "DictionaryCompressor::compress", || e.compress(&i.data))? else { return Ok(()) };
+    encoded(c, i);
+    dec(c, "DictionaryCompressor::decompress(other side of save/load)", &i.data, || dd.decompress(&z))
+}
+
+/// FseEncoder::reset / FseDecoder::reset: a reset coder behaves like a fresh one (payload round-trips after unrelated earlier work).
+fn t_fse_reset(c: &mut Case, i: &Inp) -> Res {
+    let x = &i.data;
+    let (name, cfg) = match c.rng.below(6) { 0 => ("default", FseConfig::default()), 1 => ("fast", FseConfig::fast_compression()), 2 => ("high", FseConfig::high_compression()), 3 => ("realtime", FseConfig::realtime()), 4 => ("balanced", FseConfig::balanced()), _ => ("nonadaptive", FseConfig { adaptive: false, ..FseConfig::default() }) };
+    c.input_str("cfg", name); if x.len() < 100 { c.note("stored_lt_100", 1); } else { c.note("coded_ge_100", 1); }
+    fse_tags(c, &cfg, &count(x), x);
+    let Some(mut e) = enc(c, "FseEncoder::new", || FseEncoder::new(cfg.clone()))? else { return Ok(()) };
+    let first = catch(|| e.compress(&i.train)); c.note(if matches!(first, Ok(Ok(_))) { "first_payload:ok" } else { "first_payload:refused" }, 1);
+    crate::ctx::nopanic("FseEncoder::reset", || e.reset())?;
+    let Some(z) = enc(c, "FseEncoder::compress(after reset)", || e.compress(x))? else { return Ok(()) };
+    encoded(c, i);
+    // a fresh encoder must produce a stream the same decoder accepts; byte equality is noted, not asserted (not stated anywhere)
+    if let Ok(Ok(mut f)) = catch(|| FseEncoder::new(cfg.clone())) { if let Ok(Ok(zf)) = catch(|| f.compress(x)) { c.note(if zf == z { "reset_stream_eq_fresh" } else { "reset_stream_ne_fresh" }, 1); } }
+    let mut d = must("FseDecoder::with_config", "decoder_ctor", || FseDecoder::with_config(cfg.clone()))?;
+    if let Ok(Ok(z0)) = &first { let _ = catch(|| d.decompress(z0)); }
+    crate::ctx::nopanic("FseDecoder::reset", || d.reset())?;
+    dec(c, "FseDecoder::decompress(after reset)", x, || d.decompress(&z))?;
+    dec(c, "FseDecoder::decompress(again after reset)", x, || { d.reset(); d.decompress(&z) })
+}
+/// FseTable helpers: table_size, encode_symbol_accelerated == encode_symbol.
+fn t_fse_table(c: &mut Case, i: &Inp) -> Res {
+    let table_log = c.rng.range(5, 15) as u8; let cfg = FseConfig { table_log, max_table_size: (1usize << table_log).max(4096), entropy_optimization: c.rng.bool(), ..FseConfig::default() };
+    c.input_str("cfg", &format!("table_log={table_log} entropy_optimization={}", cfg.entropy_optimization));
+    let fr = count(&i.data);
+    let Some(t) = enc(c, "FseTable::new", || FseTable::new(&fr, &cfg))? else { return Ok(()) };
+    c.set_nontrivial(true); c.ev(1);
+    crate::ensure!(t.table_size() == 1usize << t.table_log, "fse_table_size", "table_size()={} table_log={}", t.table_size(), t.table_log);
+    for s in 0..=255u8 { for _ in 0..4 {
+        let st = match c.rng.below(4) { 0 => 1 + c.rng.below(4096), 1 => 1u64 << c.rng.range(12, 32), 2 => c.rng.next() >> 32, _ => 1 + c.rng.below(1 << 20) };
+        let a = catch(|| t.encode_symbol(s, st)); let b = catch(|| t.encode_symbol_accelerated(s, st)); c.ev(1);
+        match (a, b) { (Ok(a), Ok(b)) => crate::ensure!(a == b, "accelerated_ne_plain", "encode_symbol({s},{st})={a:?} encode_symbol_accelerated={b:?}"), (Err(_), Err(_)) => c.note("encode_symbol_panics_both", 1),
+            (a, b) => return crate::ctx::fail("accelerated_ne_plain", format!("encode_symbol({s},{st}) panicked={} encode_symbol_accelerated panicked={}", a.is_err(), b.is_err())) }
+        if fr[s as usize] > 0 && t.enc_symbols[s as usize].freq == 0 { c.note("present_symbol_without_slot", 1); }
+    } }
+    Ok(())
+}
+/// FastDivision ("fast division using reciprocal multiplication", the helper stored in every FseTable): quotient and remainder
+/// equal the exact ones for every u32 dividend.
+fn t_fastdiv(c: &mut Case) -> Res {
+    let small = c.rng.bool(); c.input_str("operand_range", if small { "< 2^31" } else { "full u32" });
+    let seed = c.rng.next(); c.input("stream_seed", &seed.to_le_bytes()); c.set_nontrivial(true);
+    let mut r = crate::rng::Rng::new(seed);
+    for _ in 0..256 {
+        let d = match r.below(5) { 0 => 1 + r.below(16) as u32, 1 => 1u32 << r.below(32), 2 => 1 + r.below(4096) as u32, 3 => 1 + r.below(1 << 16) as u32, _ => (r.next() as u32).max(1) };
+        let x = match r.below(4) { 0 => u32::MAX - r.below(4) as u32, 1 => d.wrapping_mul(r.below(1 << 16) as u32).wrapping_sub(r.below(2) as u32), 2 => r.below((d as u64) << 8) as u32, _ => r.next() as u32 };
+        let (x, d) = if small { (x >> 1, (d >> 1).max(1)) } else { (x, d) };
+        if d >= 1 << 31 { c.tag("fastdiv_divisor_ge_2pow31"); } // bitlen(d) = 32: the quotient shift is 64
+        // input-only predicate: dividend * ceil(2^(32+bitlen(d)) / d) does not fit in 64 bits
+        let bl = 32 - d.leading_zeros(); let mult = ((1u128 << (32 + bl)) + d as u128 - 1) / d as u128;
+        if d > 1 && (x as u128 * mult) >> 64 != 0 { c.tag("fastdiv_product_ge_2pow64"); }
+        let fd = crate::ctx::nopanic("FastDivision::new", || FastDivision::new(d))?;
+        c.ev(2);
+        let q = match catch(|| fd.divide(x)) { Ok(q) => q, Err(p) => return Err(bad("fastdiv_panic", format!("FastDivision::new({d}).divide({x}) panicked at {}: {}", p.loc, p.msg))) };
+        crate::ensure!(q == x / d, "fastdiv_mismatch", "FastDivision::new({d}).divide({x})={q} want {}", x / d);
+        let m = match catch(|| fd.modulo(x)) { Ok(m) => m, Err(p) => return Err(bad("fastdiv_panic", format!("FastDivision::new({d}).modulo({x}) panicked at {}: {}", p.loc, p.msg))) };
+        crate::ensure!(m == x % d, "fastdiv_mismatch", "FastDivision::new({d}).modulo({x})={m} want {}", x % d);
+    }
+    Ok(())
+}
+/// rANS table invariant behind losslessness: the slots of all symbols sum to total_freq() and every present symbol owns >= 1.
+fn t_rans_table<P: rans::ParallelVariant>(c: &mut Case, i: &Inp) -> Res {
+    let fr = i.freqs.unwrap_or_else(|| count(&i.train));
+    let Some(e) = enc(c, "Rans64Encoder::new", || Rans64Encoder::<P>::new(&fr))? else { return Ok(()) };
+    c.set_nontrivial(true); c.ev(2);
+    let sum: u64 = (0..256).map(|s| e.get_symbol(s as u8).freq as u64).sum(); let tf = e.total_freq() as u64;
+    crate::ensure!(sum == tf, "rans_slots_ne_total_freq", "sum of symbol slots = {sum}, total_freq() = {tf}");
+    if let Some(s) = (0..256).find(|&s| fr[s] > 0 && e.get_symbol(s as u8).freq == 0) { return crate::ctx::fail("rans_present_symbol_without_slot", format!("symbol {s} has count {} but 0 slots", fr[s])); }
+    let mut start = 0u64; for s in 0..256 { let y = e.get_symbol(s as u8); if y.freq > 0 { crate::ensure!(y.start as u64 == start, "rans_slots_overlap", "symbol {s}: start={} want {start}", y.start); start += y.freq as u64; } }
+    Ok(())
+}
+fn t_simd_new(c: &mut Case, i: &Inp) -> Res {
+    let Some(e) = enc(c, "SimdHuffmanEncoder::new", || SimdHuffmanEncoder::new(&i.train))? else { return Ok(()) };
+    c.note(&format!("tier:{:?}", e.tier()), 1); codelen_note(c, e.tree().max_code_length());
+    let Some(z) = enc(c, "SimdHuffmanEncoder::encode", || e.encode(&i.data))? else { return Ok(()) };
+    encoded(c, i);
+    let d = HuffmanDecoder::new(e.tree().clone());
+    dec(c, "HuffmanDecoder::decode(simd output)", &i.data, || d.decode(&z, i.data.len()))
+}
+
+/// small payload loop for the gap families: every byte kind, `per` cases each; trained => training data drawn by mode idx % 4
+fn gap_drive(ctx: &mut Ctx, target: &str, fam: &str, per: usize, trained: bool, maxlen: usize, body: &dyn Fn(&mut Case, &Inp) -> Res) {
+    if !ctx.wants(target) { return; }
+    for kind in 0..gen::BYTE_KINDS { for idx in 0..per as u64 {
+        let g = format!("{fam}/{}", gen::byte_kind_name(kind));
+        ctx.case(target, &g, idx, |c| {
+            let len = gen::pick_len(&mut c.rng, maxlen); let data = gen::bytes_kind(&mut c.rng, kind, len);
+            let mode = if trained { (idx as usize + kind as usize) % 4 } else { 0 }; let train = gen_train(c, mode, &data);
+            let i = Inp { data, train, freqs: None, kind }; record(c, gen::byte_kind_name(kind), MODES[mode], &i); body(c, &i) });
+    } }
+}
+fn gap_cases(ctx: &mut Ctx) {
+    for which in ["hw", "sw", "mixed"] {
+        let t = format!("bitops/{which}");
+        if ctx.wants(&t) {
+            for idx in 0..ctx.n(40, 400) as u64 { ctx.case(&t, "gap_field_roundtrip", idx, |c| t_bitops_roundtrip(c, which)); }
+            for idx in 0..ctx.n(8, 120) as u64 { ctx.case(&t, "gap_packbits_edge", idx, |c| t_packbits_edge(c, which)); }
+        }
+    }
+    let n = ctx.n(6, 60);
+    gap_drive(ctx, "dict/serde", "gap_saveload", n, true, 1500, &|c, i| t_dict_serde(c, i));
+    gap_drive(ctx, "fse/reset", "gap_reset", n, true, 4097, &|c, i| t_fse_reset(c, i));
+    gap_drive(ctx, "fse/table", "gap_accel", ctx.n(3, 30), false, 4097, &|c, i| t_fse_table(c, i));
+    if ctx.wants("fse/fastdiv") { for idx in 0..ctx.n(16, 200) as u64 { ctx.case("fse/fastdiv", "gap_fastdiv", idx, |c| t_fastdiv(c)); } }
+    gap_drive(ctx, "rans/x1", "gap_table", n, true, 4097, &|c, i| t_rans_table::<ParallelX1>(c, i));
+    gap_drive(ctx, "rans/x4", "gap_table", ctx.n(3, 30), true, 4097, &|c, i| t_rans_table::<ParallelX4>(c, i));
+    if ctx.wants("rans/x1") { for idx in 0..ctx.n(40, 400) as u64 { ctx.case("rans/x1", "gap_table_fibfreq", idx, |c| {
+        let d = 1 + (idx as usize % 40); let (f, syms) = fib_freqs(c, d); let data: Vec<u8> = syms.clone();
+        let i = Inp { data, train: vec![], freqs: Some(f), kind: 98 }; record(c, &format!("fibfreq_d{d}"), "table", &i); t_rans_table::<ParallelX1>(c, &i) }); } }
+    gap_drive(ctx, "simdhuff/new", "gap_default_cfg", n, true, 4097, &|c, i| t_simd_new(c, i));
 }
